@@ -18,7 +18,7 @@ var gsvdKinds = []struct {
 }
 
 func genGSVD(g *vlib.G) {
-	hi := vlib.Pick(g, 4, 5)
+	hi := vlib.Pick(g, 5, 6)
 	fams := []string{"dd", "pivot", "ident", "rankdef", "zeroline", "graded"}
 	for r := 1; r <= hi; r++ {
 		for p := 1; p <= hi; p++ {
@@ -231,7 +231,7 @@ func gsvdCase(t *vlib.T, r, p, c int, fa, fb string, v int, rep string) {
 // ---------------------------------------------------------------------------
 
 func genHOGSVD(g *vlib.G) {
-	hi := vlib.Pick(g, 4, 5)
+	hi := vlib.Pick(g, 5, 6)
 	for c := 1; c <= hi; c++ {
 		for _, cnt := range []int{2, 3} {
 			for extra := 0; extra <= 2; extra++ {
